@@ -47,7 +47,7 @@ Lemma poi_to_ind1_vec X av bv nv kd : kd = KUni \/ kd = KCheb ->
 Proof.
   intros Hk Ha Hb Hn. unfold poi_to_ind1.
   rewrite poi_scale1_vec by (try assumption; destruct Hk as [-> | ->]; discriminate).
-  cbn [rbind grid_prep_opt]. rewrite ?tab_length.
+  cbn [rbind]. rewrite ?tab_length. rewrite prep_n_eq, Hn, Nat.eqb_refl. cbn [rbind grid_prep_opt].
   assert (R : forall kd', bcast_row K fl acosf pi kd'
                 (tab (length X) (fun k => scale K kd' (nth k av (o0 K)) (nth k bv (o0 K)) (nth k X (o0 K)))) nv =
      Ok (tab (length X) (fun k =>
